@@ -3,6 +3,7 @@
 package main
 
 import (
+	"time"
 	"context"
 	"fmt"
 	"strings"
@@ -87,6 +88,37 @@ func runBlockRepo(c *Case) ([]Obs, any) {
 					return Obs{ERR}
 				}
 				return Obs{OK}
+			case "save_race_revert": // t : Save's storage write is in flight when Revert(t) is called by another goroutine
+				paused, resume := store.ArmPause("blocks")
+				sdone := make(chan error, 1)
+				go func() { sdone <- repo.Save(ctx) }()
+				reached := false
+				var serr, rerr error
+				select {
+				case <-paused:
+					reached = true
+				case serr = <-sdone:
+				case <-time.After(2 * time.Second):
+				}
+				store.DisarmPause()
+				if !reached {
+					rerr = repo.Revert(ctx, int(op.Int(0)))
+					return Obs{OK, 0, b2i(serr != nil), b2i(rerr != nil)}
+				}
+				rdone := make(chan error, 1)
+				go func() { rdone <- repo.Revert(ctx, int(op.Int(0))) }()
+				got := false
+				select {
+				case rerr = <-rdone: // the revert ran to completion while the write was still in flight
+					got = true
+				case <-time.After(300 * time.Millisecond): // it waits for the save (the repository's mutex)
+				}
+				close(resume)
+				serr = <-sdone
+				if !got {
+					rerr = <-rdone
+				}
+				return Obs{OK, 1, b2i(serr != nil), b2i(rerr != nil)}
 			case "load": // restart: new node on the same storage
 				node2 := spynode.NewNode(cfg, store, nil, nil)
 				if err := node2.VerifBlocks().Load(ctx); err != nil {
@@ -94,6 +126,11 @@ func runBlockRepo(c *Case) ([]Obs, any) {
 				}
 				node = node2
 				repo = node.VerifBlocks()
+				return Obs{OK}
+			case "reload": // Load on the SAME repository object (what a second Node.Run on one Node does)
+				if err := repo.Load(ctx); err != nil {
+					return Obs{ERR}
+				}
 				return Obs{OK}
 			case "lastheight":
 				return Obs{OK, int64(repo.LastHeight())}
@@ -166,7 +203,7 @@ func runBlockRepo(c *Case) ([]Obs, any) {
 		})
 		result = append(result, obs)
 		switch op.Name {
-		case "add", "addn", "revert", "load":
+		case "add", "addn", "revert", "load", "reload", "save_race_revert":
 			snapshot()
 		}
 	}
